@@ -1,7 +1,7 @@
 (* C16 — proofs about the BVH model (Trees/Bvh.v): BVHNode.Hit finds the nearest hit, exactly like
    HitList.Hit over the same leaves, whatever the shape of the hierarchy. *)
 From PF Require Export Trees.Bvh Trees.OctreeProofs.
-From Coq Require Import Lqa Lia.
+From Coq Require Import Permutation Lqa Lia.
 Open Scope Q_scope.
 
 Section BvhProofs.
@@ -173,3 +173,113 @@ Section BvhProofs.
     - apply enc_box_r.
   Qed.
 End BvhProofs.
+
+(* ---------- NewBVHTree ---------- *)
+Section BuildProofs.
+  Variable lbox : nat -> box.
+  Variable srt : list nat -> list nat.
+  Hypothesis srt_perm : forall l, Permutation (srt l) l.
+
+  Lemma node_box_l a b : box_sub a (node_box a b).
+  Proof. unfold node_box. eapply box_sub_trans; [apply enc_box_r | apply enc_box_l]. Qed.
+  Lemma node_box_r a b : box_sub b (node_box a b).
+  Proof. unfold node_box. apply enc_box_r. Qed.
+
+  Lemma binv_node l r : binv lbox l -> binv lbox r ->
+    binv lbox (BNode (node_box (bbox_of lbox l) (bbox_of lbox r)) l r).
+  Proof. intros Hl Hr. cbn [binv]. split; [apply node_box_l|]. split; [apply node_box_r|]. split; assumption. Qed.
+
+  (* every tree NewBVHTree can build (any axes, any tie order of the sort) has node boxes containing the
+     boxes below, and holds exactly the given objects *)
+  Theorem bvh_build_ok : forall fuel objs t,
+    bvh_build lbox srt fuel objs = Some t ->
+    binv lbox t /\ forall i, In i (leaves t) <-> In i objs.
+  Proof.
+    induction fuel as [|f IH]; intros objs t B; [discriminate|].
+    cbn [bvh_build] in B. destruct objs as [|i [|j [|k rest]]]; [discriminate| | |].
+    - injection B as <-. split; [apply (binv_node (BLeaf i) (BLeaf i)); exact I|].
+      intros x. cbn. tauto.
+    - pose proof (srt_perm [i; j]) as P. destruct (srt [i; j]) as [|a [|b [|c l]]]; try discriminate.
+      injection B as <-. split; [apply (binv_node (BLeaf a) (BLeaf b)); exact I|]. cbn [leaves app].
+      intros x. split; intros H.
+      + eapply Permutation_in; [exact P | exact H].
+      + eapply Permutation_in; [apply Permutation_sym, P | exact H].
+    - remember (i :: j :: k :: rest) as objs eqn:E. pose proof (srt_perm objs) as P.
+      cbv zeta in B.
+      destruct (bvh_build lbox srt f (firstn (Nat.div (length (srt objs)) 2) (srt objs))) as [l|] eqn:Bl; [|discriminate].
+      destruct (bvh_build lbox srt f (skipn (Nat.div (length (srt objs)) 2) (srt objs))) as [r|] eqn:Br; [|discriminate].
+      injection B as <-. apply IH in Bl. apply IH in Br. destruct Bl as [Il Ll], Br as [Ir Lr].
+      split; [apply binv_node; assumption|]. cbn [leaves].
+      intros x. rewrite in_app_iff, Ll, Lr, <- in_app_iff, firstn_skipn.
+      split; intros H; [eapply Permutation_in; [exact P | exact H] | eapply Permutation_in; [apply Permutation_sym, P | exact H]].
+  Qed.
+
+  (* enough fuel (one unit per level; the number of objects always suffices): the builder answers on
+     every non-empty list *)
+  Theorem bvh_build_some : forall fuel objs,
+    (length objs <= fuel)%nat -> objs <> [] -> exists t, bvh_build lbox srt fuel objs = Some t.
+  Proof.
+    induction fuel as [|f IH]; intros objs L N; [destruct objs; [contradiction | cbn in L; lia]|].
+    cbn [bvh_build]. destruct objs as [|i [|j [|k rest]]]; [contradiction | eauto | |].
+    - pose proof (srt_perm [i; j]) as P. apply Permutation_length in P.
+      destruct (srt [i; j]) as [|a [|b [|c l]]]; try discriminate. eauto.
+    - remember (i :: j :: k :: rest) as objs eqn:E. pose proof (srt_perm objs) as P.
+      apply Permutation_length in P. cbv zeta.
+      assert (Ln : (3 <= length objs)%nat) by (rewrite E; cbn; lia).
+      set (s := srt objs) in *. set (mid := Nat.div (length s) 2).
+      assert (M1 : (0 < mid)%nat) by (unfold mid; apply Nat.div_str_pos; lia).
+      assert (M2 : (mid < length s)%nat) by (unfold mid; apply Nat.div_lt; lia).
+      destruct (IH (firstn mid s)) as [l ->].
+      { rewrite firstn_length. lia. }
+      { intros X. apply (f_equal (@length nat)) in X. rewrite firstn_length in X. cbn [length] in X. lia. }
+      destruct (IH (skipn mid s)) as [r ->].
+      { rewrite skipn_length. lia. }
+      { intros X. apply (f_equal (@length nat)) in X. rewrite skipn_length in X. cbn [length] in X. lia. }
+      eauto.
+  Qed.
+End BuildProofs.
+
+(* BVHNode.Hit on every tree NewBVHTree can build over objs = HitList.Hit over objs: any range [lo, hi]
+   (absolute ray parameters: dist i == tv i, which is what Triangle.Hit records once its upper-bound test
+   compares tVal + min with max — fixes/c16-tri-hit-max-offset) *)
+Theorem bvh_built_hit_eq_list_thm lbox srt tv dist ry lo :
+  (forall l, Permutation (srt l) l) ->
+  (forall i t, tv i = Some t -> dist i == t) ->
+  (forall i t, tv i = Some t -> slab (lbox i) ry (lo, t) = true) ->
+  (forall i, wf_box (lbox i)) ->
+  forall fuel objs t hi,
+    bvh_build lbox srt fuel objs = Some t ->
+    same_answer (bhit tv dist ry lo t hi None) (list_hit tv dist objs hi false None).
+Proof.
+  intros P D H W fuel objs t hi B. destruct (bvh_build_ok lbox srt P fuel objs t B) as [I L].
+  apply (bvh_hit_eq_list_thm lbox tv dist ry lo D H W); assumption.
+Qed.
+
+(* The pinned Triangle.Hit compares the parameter measured from ray.At(lo) (tv) with the absolute bound
+   but records dist = tv + lo.  With lo <> 0 neither search is a nearest-hit search any more and the two
+   disagree: two leaves at relative parameters 9/2 and 4, lo = 1, hierarchy (leaf 1, leaf 0), list
+   [0; 1]: BVHNode.Hit reports 11/2, HitList.Hit reports 5. *)
+Theorem bvh_hit_min_offset_refuted :
+  exists (lbox : nat -> box) (tv : nat -> option Q) (dist : nat -> Q) (ry : ray) (lo hi : Q) (t : bvh) (l : list nat),
+    (forall i t0, tv i = Some t0 -> dist i == t0 + lo) /\
+    (forall i t0, tv i = Some t0 -> slab (lbox i) ry (lo, t0 + lo) = true) /\
+    (forall i, wf_box (lbox i)) /\
+    binv lbox t /\ (forall i, In i (leaves t) <-> In i l) /\
+    bhit tv dist ry lo t hi None = (true, Some (11 # 2)) /\
+    list_hit tv dist l hi false None = (true, Some 5) /\
+    ~ same_answer (bhit tv dist ry lo t hi None) (list_hit tv dist l hi false None).
+Proof.
+  set (bx := ((-16, -16, 0), (16, 24, 24))%Z : box).
+  exists (fun _ => bx),
+         (fun i => match i with O => Some (9 # 2) | S O => Some 4 | _ => None end),
+         (fun i => match i with O => 11 # 2 | S O => 5 | _ => 0 end),
+         ((0, 0, 0)%Z, (0, 0, 1)), 1, 1000000,
+         (BNode bx (BLeaf 1%nat) (BLeaf 0%nat)), [0%nat; 1%nat].
+  split; [intros [|[|i]] t0 [= <-]; reflexivity|].
+  split; [intros [|[|i]] t0 [= <-]; vm_compute; reflexivity|].
+  split; [intros i; unfold wf_box, bx; cbn; lia|].
+  split; [cbn; repeat split; apply box_sub_refl|].
+  split; [intros i; cbn; tauto|].
+  split; [vm_compute; reflexivity|]. split; [vm_compute; reflexivity|].
+  intros [_ H]. vm_compute in H. discriminate H.
+Qed.
